@@ -67,6 +67,8 @@ class ScipySolver(SolverBase):
         shape = state.data.shape
         self.info["dt"] = dt
         self.info["steps"] = 0
+        # scipy chooses its time steps adaptively and hits the requested times exactly
+        self.info["dt_adaptive"] = True
         self.info["stochastic"] = False
 
         # obtain function for evaluating the right hand side
